@@ -16,6 +16,7 @@ from rv import core, zoo, fcsgen
 from rv.fingerprint import fp, diff
 
 LEVEL = 'exploration'
+LEVEL_TEXT = 'State-space walk: all 156 operation sequences of length <= 3 over {slice channels, slice events, to RFI, to MEF, gate} x 10 duplication methods, equality by fingerprint and independence by mutating either side; FCSFile equality/hash on reloaded and minimally changed files. Exhaustive over the sequences, exploration over samples.'
 TECHNIQUE = 'state-space walk (all op sequences <= 3) with fingerprint equality + mutate-one-side independence checker'
 RULE = ('samples {integer big/little endian, float32/64, with/without optional metadata, zero-event} x ALL sequences of '
         '<= 3 operations over {slice channels, slice events, to RFI, to MEF, gate} (156, exhaustive) x {copy, copy.copy, '
